@@ -61,6 +61,7 @@ type xdsClient struct {
 	sub     map[string]*subState
 	outq    []proto.Message
 	recvLog []recvEvent
+	sentLog []string // requests handed to the server (compact), newest last
 
 	// per-stream
 	sotw      *sotwStream
@@ -140,7 +141,7 @@ func resourceName(typeURL string, a *anypb.Any) string {
 			return m.Name
 		}
 	case v3.NameTableType:
-		return "nametable"
+		return "" // the single NDS resource is unnamed (delta sends it with an empty name)
 	}
 	return fmt.Sprintf("?%s/%d", a.TypeUrl, len(a.Value))
 }
@@ -278,6 +279,15 @@ func contains(l []string, s string) bool {
 func (c *xdsClient) nextRequest() proto.Message {
 	m := c.outq[0]
 	c.outq = c.outq[1:]
+	switch r := m.(type) {
+	case *discovery.DiscoveryRequest:
+		c.sentLog = append(c.sentLog, fmt.Sprintf("%s v=%.19s nonce=%.8s names=%v err=%v", shortType(r.TypeUrl), r.VersionInfo, r.ResponseNonce, r.ResourceNames, r.ErrorDetail != nil))
+	case *discovery.DeltaDiscoveryRequest:
+		c.sentLog = append(c.sentLog, fmt.Sprintf("%s nonce=%.8s sub=%v unsub=%v init=%d err=%v", shortType(r.TypeUrl), r.ResponseNonce, r.ResourceNamesSubscribe, r.ResourceNamesUnsubscribe, len(r.InitialResourceVersions), r.ErrorDetail != nil))
+	}
+	if len(c.sentLog) > 40 {
+		c.sentLog = c.sentLog[len(c.sentLog)-40:]
+	}
 	if !c.nodeSent {
 		c.nodeSent = true
 		switch r := m.(type) {
